@@ -48,7 +48,7 @@ MAXOPS = {'quick': 60, 'thorough': 200}
 
 def op_strategy():
     v = st.integers(0, 65535)
-    return st.tuples(st.integers(0, len(OPTABLE) - 1), v, v, v, v)
+    return st.tuples(st.sampled_from(range(len(OPTABLE))), v, v, v, v)      # uniform over the weighted table (st.integers favours small values)
 
 def case_strategy(maxops):
     return st.fixed_dictionaries({
